@@ -96,6 +96,16 @@ static void dom_close1(U64Vec *s) {
 // FINE(r): level 0 = whole family closed under one neighbour step; higher levels are thinned
 //   level 1: RUN over pentagon base cells + every 5th, run lengths in steps of 2
 //   level 2: RUN over pentagon base cells + every 17th, run lengths in steps of 4, not closed
+static void dom_fine_raw(int r, int level, U64Vec *out) {
+    dom_pent(r, level >= 2 ? 1 : 2, out);
+    if (level == 0)
+        dom_run(r, 1, 1, out);
+    else if (level == 1)
+        dom_run(r, 5, 2, out);
+    else
+        dom_run(r, 17, r > 6 ? 4 : 2, out);
+    uv_sortuniq(out);
+}
 static void dom_fine(int r, int level, U64Vec *out) {
     dom_pent(r, level >= 2 ? 1 : 2, out);
     if (level == 0)
